@@ -42,7 +42,7 @@ TIMEOUT_CASE = 600
 
 def plan(tier, seed):
     n = 96 if tier == "quick" else 2400
-    kinds = ["volume", "volume", "quad-active", "quad-active", "quad-interior", "quad-inactive"]
+    kinds = ["volume", "volume", "quad-active", "quad-active", "quad-interior", "quad-inactive", "scale-mix"]
     return [{"kind": kinds[i % len(kinds)], "i": i} for i in range(n)]
 
 
@@ -104,6 +104,40 @@ def make_problem(kind, rng):
             xs = np.clip(np.sqrt(c / lam), lo, hi)
             a, b = (lam, b) if xs.sum() > vmax else (a, lam)
         P.update(lo=lo, hi=hi, funs=[fobj, g1], xopt=xs, x0=np.clip(np.full(n, V) * hi, lo, hi), cls="A", scale_obj=use_scaling)
+        return P
+    if kind == "scale-mix":
+        # two signals of very different physical scale: lengths in [0, 10^k] with a linear objective (they run into their bounds
+        # and become stationary early) and thicknesses in [0, 1] coupled through a non-diagonal quadratic (they keep moving)
+        from scipy.optimize import minimize
+        for _ in range(20):
+            nL, nt = int(rng.integers(2, 7)), int(rng.integers(2, 5))
+            sL = 10.0 ** rng.integers(1, 4)
+            n = nL + nt
+            scale = np.concatenate([np.full(nL, sL), np.ones(nt)])
+            cL = (3.0 + 2 * rng.random(nL)) * rng.choice([-1, 1], nL)
+            Q = rng.standard_normal((nt, nt))
+            H = Q @ Q.T / nt + 0.5 * np.eye(nt) + 0.3
+            s0 = rng.uniform(0.2, 0.8, nt)
+            # all lengths that pay off go to their upper bound, the thicknesses share what is left of the budget (active constraint)
+            V = float((np.sum(cL > 0) + rng.uniform(0.5, 0.9) * s0.sum()) / n)
+
+            def fobj(x, cL=cL, H=H, s0=s0, scale=scale, nL=nL):
+                u = x / scale
+                return float(-cL @ u[:nL] + (u[nL:] - s0) @ H @ (u[nL:] - s0)), np.concatenate([-cL, 2 * H @ (u[nL:] - s0)]) / scale
+
+            def g1(x, scale=scale, n=n, V=V):
+                return float(np.sum(x / scale) / n - V), 1.0 / (n * scale)
+            r = minimize(lambda u: fobj(u * scale)[0], np.full(n, 0.5), jac=lambda u: fobj(u * scale)[1] * scale, bounds=[(0, 1)] * n,
+                         constraints=[dict(type="ineq", fun=lambda u: -g1(u * scale)[0], jac=lambda u: -g1(u * scale)[1] * scale)],
+                         method="SLSQP", options=dict(ftol=1e-15, maxiter=1000))
+            uL = r.x[:nL]
+            if r.success and np.all(np.minimum(uL, 1 - uL) < 1e-9):      # non-degenerate: every length sits at a bound
+                break
+        else:
+            r = None
+        P.update(nsig=2, sizes=[nL, nt], scalar=[False, False], n=n)
+        P.update(lo=np.zeros(n), hi=scale.copy(), funs=[fobj, g1], xopt=(r.x * scale) if r is not None else None, x0=0.5 * scale, cls="A",
+                 scale_obj=False, scaled=True, fixed_bounds=True)
         return P
     lo = rng.uniform(-2, 0, n)
     hi = lo + rng.uniform(0.5, 3, n)
@@ -181,7 +215,9 @@ def run_case(case, ctx):
             mode = "pervar"
     if mode == "pervar":
         xmin, xmax = lo.copy(), hi.copy()
-    if mode != "pervar" or True:
+    if P.get("fixed_bounds"):
+        pass       # per-signal / per-variable bounds equal the problem's own box
+    elif mode != "pervar" or True:
         # bounds were widened: recompute the reference optimum for the actual box
         if P["kind"] == "volume":
             c = -P["funs"][0](np.ones(n))[1]
@@ -238,6 +274,7 @@ def run_case(case, ctx):
     kw = dict(asyinit=float(rng.choice([0.5, 0.2])), asyincr=float(rng.choice([1.2, 1.1])), asydecr=float(rng.choice([0.7, 0.5])),
               albefa=float(rng.choice([0.1, 0.2])))
     maxit = int(rng.choice([15, 40, 60]))
+    tolx = float(rng.choice([1e-7, 1e-4]))       # 1e-4 is the default stopping tolerance on the relative (range-normalised) step
     log, states = [], []
     orig = mma_mod.subsolv
 
@@ -259,13 +296,13 @@ def run_case(case, ctx):
         with contextlib.redirect_stdout(io.StringIO()), warnings.catch_warnings():
             warnings.simplefilter("ignore")
             pym.minimize_mma(net, sigs, resp, xmin=xmin, xmax=xmax, move=move, maxit=maxit, verbosity=0, fn_callback=cb,
-                             mmaversion=version, tolx=1e-7, **kw)
+                             mmaversion=version, tolx=tolx, **kw)
     finally:
         mma_mod.subsolv = orig
     final = np.concatenate([np.atleast_1d(np.asarray(s.state, dtype=float)).ravel() for s in sigs])
     X = np.array(states)
     rngx = hi - lo
-    desc = dict(kind=P["kind"], n=n, sizes=sizes, scalar=scalar, bounds=mode, move=mvmode, version=version, its=len(log))
+    desc = dict(kind=P["kind"], n=n, sizes=sizes, scalar=scalar, bounds=mode, move=mvmode, version=version, its=len(log), tolx=tolx)
     require(len(X) >= 1 and X.shape[1] == n, "recorder/variables-wrong-size", **desc)
     # ---- bounds and move limits on every design the optimiser evaluated
     tolb = 1e-12 * (1 + np.abs(hi) + np.abs(lo))
@@ -339,6 +376,10 @@ def run_case(case, ctx):
             raise Violation("constraints-not-satisfied-at-the-end", gmax=gfin, **desc)
         if len(log) >= 30 or converged_early:
             limit = 2e-3 if P["cls"] == "A" else 3e-2
+            if P["kind"] == "scale-mix":
+                # coupled quadratic part: a first-order method may be slow, so a run cut off by maxit only has to have made progress;
+                # a run that stopped by itself claims convergence (remaining error ~ step*rho/(1-rho): 1e-2 is generous for tolx=1e-4)
+                limit = (1e-2 if tolx > 1e-5 else 2e-3) if converged_early else 0.9 * d0
             # a run that stopped by itself (step-size criterion, tolx = 1e-7) claims convergence: no allowance for "still on its way"
             if dist > limit and not (P["cls"] == "A" and dist <= 0.05 * d0 and not converged_early):
                 raise Violation("iterates-do-not-approach-the-optimum", dist=dist, initial=d0, cls=P["cls"], **desc)
